@@ -40,24 +40,33 @@ pub fn help_doc(s: &str) -> Doc {
     }
     let mut rest = s;
     loop {
-        // `{{doc:X}}` - a nested document, `{{lit:X}}` - a literal token of the same document
-        let (i, nested) = match (rest.find("{{doc:"), rest.find("{{lit:")) {
-            (Some(a), Some(b)) => (a.min(b), a < b),
-            (Some(a), None) => (a, true),
-            (None, Some(b)) => (b, false),
-            (None, None) => break,
+        // `{{doc:X}}` - a nested document, `{{lit:X}}` / `{{emp:X}}` / `{{inv:X}}` - a literal,
+        // emphasised or invalid token of the same document
+        let found = ["{{doc:", "{{lit:", "{{emp:", "{{inv:"]
+            .iter()
+            .filter_map(|t| rest.find(t).map(|i| (i, *t)))
+            .min();
+        let (i, tag) = match found {
+            Some(x) => x,
+            None => break,
         };
         let j = match rest[i..].find("}}") {
             Some(j) => i + j,
             None => break,
         };
-        d.text(&rest[..i]);
-        if nested {
-            let mut n = Doc::default();
-            n.literal(&rest[i + 6..j]);
-            d.doc(&n);
-        } else {
-            d.literal(&rest[i + 6..j]);
+        if i > 0 {
+            d.text(&rest[..i]);
+        }
+        let body = &rest[i + 6..j];
+        match tag {
+            "{{doc:" => {
+                let mut n = Doc::default();
+                n.literal(body);
+                d.doc(&n);
+            }
+            "{{lit:" => d.literal(body),
+            "{{emp:" => d.emphasis(body),
+            _ => d.invalid(body),
         }
         rest = &rest[j + 2..];
     }
@@ -67,7 +76,11 @@ pub fn help_doc(s: &str) -> Doc {
 
 /// does the text ask for a help built with the Doc API
 pub fn wants_doc(s: &str) -> bool {
-    s.contains("{{doc:") || s.contains("{{lit:") || s == EMPTY_DOC
+    s.contains("{{doc:")
+        || s.contains("{{lit:")
+        || s.contains("{{emp:")
+        || s.contains("{{inv:")
+        || s == EMPTY_DOC
 }
 
 /// a title computed at run time that turns out empty: `group_help(Doc::default())`
